@@ -49,7 +49,8 @@ ASSUMPTIONS = ["the first TCP segment carries at least three bytes (documented m
 EXPECTED_PROBES = ["expect_ignore", "expect_intercept", "hinges_on_address", "hinges_on_sni", "hinges_on_host",
                    "ignored_relay_checked", "mode_connect", "mode_transparent", "mode_reverse", "mode_socks5",
                    "flight_tls", "flight_http", "allow_rules", "ignore_rules", "host_no_ows", "short_first_segment",
-                   "addon_ignore_set"]
+                   "addon_ignore_set", "hello_followed_by_ccs", "hello_followed_by_appdata",
+                   "follow_in_same_segment_as_hello_end"]
 
 NAMES = ["example.com", "api.example.com", "example.org", "pinned.test"]
 IPS = ["93.184.216.34", "10.1.2.3"]
@@ -201,6 +202,17 @@ def generate(rng, tier):
     sc["conns"] = [{"cuts": [], "gaps": []},
                    {"cuts": _cuts(r), "gaps": [r.choice([0, 0.001, 0.05]) for _ in range(5)],
                     "socks_trailing": mode == "socks5" and r.random() < 0.3}]
+    # Records that follow the ClientHello in the same first flight: the TLS 1.3 middlebox-compatibility
+    # ChangeCipherSpec and/or a (0-RTT style) application-data record.  Drawn from a site of its own so that
+    # scenarios without them keep their shape.
+    r2 = rng.at("c19-follow")
+    if flight == "tls" and r2.random() < 0.4:
+        sc["follow"] = r2.choice([["ccs"], ["ccs"], ["ccs"], ["ccs", "ccs"], ["ccs", "appdata"], ["appdata"]])
+        sc["follow_seed"] = r2.getrandbits(16)
+        # segmentation of the second connection relative to the end of the hello
+        lay = r2.choice(["arbitrary", "hello_alone", "inside_hello", "inside_hello", "hello_plus_part"])
+        sc["conns"][1]["layout"] = lay
+        sc["conns"][1]["at"] = round(r2.random(), 4)
     return sc
 
 
@@ -284,6 +296,11 @@ def _execute(sc):
                         e = T.TlsEnd.server(conn, sctx)
                         cur["origin_end"] = e
                         if not await e.handshake(timeout=20.0):
+                            # keep the transport open until the other side is done (a relay owes us its bytes)
+                            while not conn.rx_eof:
+                                if not await conn.wait_change(20.0):
+                                    break
+                            conn.send_eof()
                             return
                         # answer one request-looking blob, then read until the other side closes
                         while b"\r\n\r\n" not in e.plain and not e.closed_in:
@@ -330,7 +347,32 @@ def _execute(sc):
                 first = e.pop_out()
             else:
                 first = request
+            hello_len = len(first)
+            follow = b""
+            if flight == "tls" and sc.get("follow"):
+                import random as _random
+                fr = _random.Random(sc.get("follow_seed", 0))
+                for kind in sc["follow"]:
+                    if kind == "ccs":
+                        follow += b"\x14\x03\x03\x00\x01\x01"
+                        probe("hello_followed_by_ccs")
+                    else:
+                        blob = fr.randbytes(24)
+                        follow += b"\x17\x03\x03" + len(blob).to_bytes(2, "big") + blob
+                        probe("hello_followed_by_appdata")
+                first = first + follow
             cuts = [k for k in T.abs_cuts(cs["cuts"], len(first)) if k >= 3]
+            if follow and cs.get("layout"):
+                lay, at = cs["layout"], cs.get("at", 0.5)
+                if lay == "hello_alone":
+                    cuts = [hello_len]
+                elif lay == "inside_hello":
+                    cuts = [min(hello_len - 1, max(3, int(at * hello_len)))]
+                elif lay == "hello_plus_part":
+                    cuts = [hello_len + min(len(follow) - 1, max(1, int(at * len(follow))))]
+            if follow and hello_len not in cuts:
+                # the record(s) after the hello reach the proxy in the same read as the hello's last bytes
+                probe("follow_in_same_segment_as_hello_end")
             res["first_seg"] = cuts[0] if cuts else len(first)
             res["nseg"] = len(cuts) + 1
             # ---- preamble ------------------------------------------------------------------------------
@@ -380,6 +422,19 @@ def _execute(sc):
                     await e.flush()
                 else:
                     res["detail"] = f"handshake: {e.hs_error}"
+                    if follow:
+                        # An application-data record behind the hello makes any TLS server abort the handshake, the
+                        # real origin and mitmproxy alike; the decision is then read from what the proxy did with the
+                        # bytes: TLS started on the client side = intercepted; bytes handed verbatim to the origin
+                        # without any TLS layer = passed through.
+                        await asyncio.sleep(1.0)
+                        hk = per_port_hooks.get(cport, [])
+                        oc = cur.get("origin_conn")
+                        if "tls_start_client" in hk:
+                            res["observed"] = "intercept"
+                        elif oc is not None and oc.received and oc.received.startswith(first) and not any(
+                                h.startswith("tls_") for h in hk):
+                            res["observed"] = "ignore"
             else:
                 for _ in range(80):
                     if c.received[pre_recv:].endswith(b"abc") or c.rx_eof:
